@@ -136,13 +136,25 @@ fn landmarks(f: &Func) -> Vec<i32> {
     }
     match f.name {
         "sin" | "cos" | "tan" => {
-            // multiples of pi/4 up to the reduction limit (dense at first, then strided)
+            // every multiple of pi/4 up to the reduction limit (about 500 000 of them): the
+            // posits nearest to a multiple of pi/2 are the worst cases of the argument
+            // reduction (the reduced argument is smallest there, so an error in the low words
+            // of pi is largest relative to the result); +-6 patterns around the first 4096
+            // multiples, +-2 around the others
             let mut k = 1u64;
             while (k as f64) * std::f64::consts::FRAC_PI_4 < 393_216.0 {
                 let x = (k as f64) * std::f64::consts::FRAC_PI_4;
-                push_around(x, &mut v);
-                push_around(-x, &mut v);
-                k += if k < 4096 { 1 } else { 1 + k / 512 };
+                if k < 4096 {
+                    push_around(x, &mut v);
+                    push_around(-x, &mut v);
+                } else {
+                    let p = enc(x);
+                    for d in -2..=2 {
+                        v.push(p.wrapping_add(d));
+                        v.push(p.wrapping_add(d).wrapping_neg());
+                    }
+                }
+                k += 1;
             }
         }
         "exp" | "sinh" | "cosh" => {
